@@ -17,7 +17,7 @@ EXPLANATION = (
     "session purge, the publish window only by PUBACK, PUBREC and the purge; a PUBLISH and a PUBREL are each driven by a single "
     "retry timer (alarm overwritten only when the old handle is not pending, entries leave their window cancelled), so the "
     "cancellation in the PUBREC handler really silences the PUBLISH. Decides the structure; wire order over histories is "
-    "not explored.")
+    "not explored. Q-FRAME: the premises of the framing lemma (every rule of C03) hold, a necessary condition of anything said about inbound packets.")
 ASSUMPTIONS = []
 
 OWN = {"PUBLISH": {"queuePublishTx", "windowPublish"}, "PUBREL": {"windowPubRelease"}}
